@@ -1,5 +1,6 @@
 """C08 — every lane of n-dimensional data is interpolated independently."""
 import random
+from fractions import Fraction as Fr
 
 import gen
 import vlib
@@ -81,10 +82,25 @@ def build(rng, tier):
         else:
             xs = gen.axis_f(rng, n, "random"); flat = [rng.uniform(-2, 2) for _ in range(n * L)]
             qs = [rng.uniform(xs[0], xs[-1]) for _ in range(nq)]
+        near = None
         if kind == "spl":
             bc, lanes = c02.rand_bc(rng, S, L, trailing)
+            if L >= 2 and rng.random() < 0.12:
+                bc, lanes = "per", "per"
             if bc == "per":
                 flat[(n - 1) * L:] = flat[:L]
+                if L >= 2 and rng.random() < 0.6:
+                    # almost periodic: lane `near` misses periodicity by the smallest amount while another lane is huge; the
+                    # end-value test is exact and per lane, so the build is rejected because of that lane alone
+                    near = rng.randrange(L)
+                    big = (near + 1) % L
+                    if S == "Q":
+                        flat[(n - 1) * L + near] = flat[near] + Fr(1, 2 ** 70)
+                        flat[big] = flat[(n - 1) * L + big] = Fr(10 ** 9)
+                    else:
+                        flat[near] = 1e-6
+                        flat[(n - 1) * L + near] = vlib.next_up(1e-6)
+                        flat[big] = flat[(n - 1) * L + big] = 1e9
         else:
             bc, lanes = None, None
         def mk(sh, fl, b, dt="dyn", nd_=False):
@@ -107,6 +123,9 @@ def build(rng, tier):
             lines.append(mk([n], col, lane_bc(bc, lanes, j) if kind == "spl" else None))
         variants = []
         j = rng.randrange(L) if L else 0
+        if near is not None:
+            groups.append((nd, singles, [], L, nq, ("near", near)))
+            continue
         if L >= 2:
             for _ in range(2):
                 f2 = [v if (p % L) == j else (rng.uniform(-9, 9) if S == "F" else gen.vals_q(rng, 1)[0]) for p, v in enumerate(flat)]
@@ -125,7 +144,7 @@ def build(rng, tier):
 
 def generate(rng, tier):
     lines, groups = build(random.Random(rng.random()), tier)
-    return [{"line": lines[g[0]], "meta": {"L": g[3]}} for g in groups]
+    return [{"line": lines[g[0]], "meta": {"L": g[3], "near": isinstance(g[5], tuple)}} for g in groups]
 
 
 def nontrivial(case, res):
@@ -133,6 +152,8 @@ def nontrivial(case, res):
 
 
 def oracle(case, res):
+    if case["meta"].get("near"):
+        return None if res.raw.startswith("berr ValueError") else f"a lane whose first and last values differ must be rejected with ValueError, got {res.raw[:80]}"
     return None if res.kind == "ok" else f"must be answered, got {res.raw[:80]}"
 
 
@@ -142,6 +163,18 @@ def extra(rng, tier):
     fails, cmp_n = [], 0
     for nd, singles, variants, L, nq, jsel in groups:
         r = Result(outs[nd])
+        if isinstance(jsel, tuple):
+            # almost periodic lane: the n-d build and the build from that lane alone are rejected, every other lane alone builds
+            nearj = jsel[1]
+            cmp_n += 1
+            if not outs[nd].startswith("berr ValueError"):
+                fails.append({"line": lines[nd], "impl": outs[nd][:200],
+                              "required": f"lane {nearj} is not periodic (its own first/last values differ): ValueError whatever the other lanes hold"})
+            for j, idx in singles:
+                want = "berr ValueError" if j == nearj else "ok"
+                if not outs[idx].startswith(want):
+                    fails.append({"line": lines[idx], "impl": outs[idx][:200], "required": f"lane {j} alone must give `{want}`"})
+            continue
         if r.kind != "ok":
             fails.append({"line": lines[nd], "impl": outs[nd][:200], "required": "n-d interpolator must answer"})
             continue
